@@ -1,3 +1,10 @@
+import os
+
+HERE = os.path.dirname(os.path.abspath(__file__))
+
+
 def all_contracts():
-    from . import core, spec
-    return core.REGISTRY, spec.FIELD_TYPES
+    """-> (registry, field types, lemmas, extra sidecar source files)"""
+    from . import core, spec, lemmas
+    extra = []
+    return core.REGISTRY, spec.FIELD_TYPES, lemmas.LEMMAS, extra
